@@ -98,12 +98,29 @@ pub struct HyphenationComponent {
     hyphenator: hyphenate::Hyphenator,
 }
 
+/// The character that `\patterns` and `\hyphenation` store for a letter: its `\lccode`
+/// (TeX.2021.937 and TeX.2021.962), so that the hyphenator, which looks up lower cased words,
+/// finds patterns and exceptions given in upper case.
+///
+/// As in `\lowercase`, a character whose `\lccode` is zero is left unchanged.
+// TODO: TeX reports an error ("Not a letter" / "Nonletter") for such a character.
+fn lower_case<S: HasComponent<LcCodeComponent>>(state: &S, c: char) -> char {
+    match HasComponent::<LcCodeComponent>::component(state)
+        .values()
+        .get(c as usize)
+    {
+        Some(&lc) if lc != 0 => char::from(lc),
+        _ => c,
+    }
+}
+
 /// Get the `\patterns` primitive.
-pub fn get_patterns<S: HasComponent<HyphenationComponent>>() -> command::BuiltIn<S> {
+pub fn get_patterns<S: HasComponent<HyphenationComponent> + HasComponent<LcCodeComponent>>(
+) -> command::BuiltIn<S> {
     command::BuiltIn::new_execution(patterns_primitive_fn)
 }
 
-fn patterns_primitive_fn<S: HasComponent<HyphenationComponent>>(
+fn patterns_primitive_fn<S: HasComponent<HyphenationComponent> + HasComponent<LcCodeComponent>>(
     _: token::Token,
     input: &mut vm::ExecutionInput<S>,
 ) -> txl::Result<()> {
@@ -121,27 +138,33 @@ fn patterns_primitive_fn<S: HasComponent<HyphenationComponent>>(
                 s.push(' ');
             }
             Letter(c) | Other(c) => {
-                s.push(c);
+                // TeX.2021.962: digits and the edge-of-word dot stand for themselves.
+                if c.is_ascii_digit() || c == '.' {
+                    s.push(c);
+                } else {
+                    s.push(lower_case(input.state(), c));
+                }
             }
             _ => {
                 // TODO: error
             }
         }
     }
-    input
-        .state_mut()
-        .component_mut()
+    HasComponent::<HyphenationComponent>::component_mut(input.state_mut())
         .hyphenator
         .load_patterns(&s);
     Ok(())
 }
 
 /// Get the `\hyphenation` primitive.
-pub fn get_hyphenation<S: HasComponent<HyphenationComponent>>() -> command::BuiltIn<S> {
+pub fn get_hyphenation<S: HasComponent<HyphenationComponent> + HasComponent<LcCodeComponent>>(
+) -> command::BuiltIn<S> {
     command::BuiltIn::new_execution(hyphenation_primitive_fn)
 }
 
-fn hyphenation_primitive_fn<S: HasComponent<HyphenationComponent>>(
+fn hyphenation_primitive_fn<
+    S: HasComponent<HyphenationComponent> + HasComponent<LcCodeComponent>,
+>(
     _: token::Token,
     input: &mut vm::ExecutionInput<S>,
 ) -> txl::Result<()> {
@@ -161,7 +184,11 @@ fn hyphenation_primitive_fn<S: HasComponent<HyphenationComponent>>(
             Letter(c) | Other(c) => {
                 // TODO: need to check the \lccode is valid
                 // as in TeX.2021.937.
-                s.push(c);
+                if c == '-' {
+                    s.push(c);
+                } else {
+                    s.push(lower_case(input.state(), c));
+                }
             }
             _ => {
                 // TODO: error and handle other cases. TeX is pretty flexible in
@@ -170,9 +197,7 @@ fn hyphenation_primitive_fn<S: HasComponent<HyphenationComponent>>(
         }
     }
     // The words are separated by spaces and each of them is an exception (TeX.2021.935).
-    input
-        .state_mut()
-        .component_mut()
+    HasComponent::<HyphenationComponent>::component_mut(input.state_mut())
         .hyphenator
         .insert_exceptions(&s);
     Ok(())
